@@ -38,15 +38,26 @@ CMP_SWAPS = {ast.Eq: "!=", ast.NotEq: "==", ast.Lt: "<=", ast.LtE: "<", ast.Gt: 
 FILE_CHECKS = {"yarl/_quoting_py.py": ["C05", "C01", "C06"], "yarl/_quoters.py": ["C01", "C04", "C06", "C02"], "yarl/_parse.py": ["C07", "C03", "C09"],
                "yarl/_path.py": ["C15", "C13"], "yarl/_query.py": ["C12", "C02"], "yarl/_quoting.py": ["C05"]}
 FUNC_CHECKS = [
-    (("join",), ["C14", "C15"]), (("_make_child", "joinpath", "__truediv__", "with_name", "with_suffix", "parent", "parts", "name", "suffix"), ["C13", "C15", "C11"]),
-    (("with_path",), ["C15", "C11", "C13"]), (("query", "update_query", "extend_query", "with_query", "without_query_params", "__mod__", "_parsed_query"), ["C12", "C11", "C02"]),
-    (("_encode_host", "_idna", "host", "_host_validate"), ["C16", "C03", "C18"]), (("port", "is_default_port", "_get_port"), ["C17", "C11"]),
-    (("human_repr", "human_quote"), ["C18"]), (("__eq__", "__hash__", "__le__", "__lt__", "__ge__", "__gt__", "_cmp"), ["C10"]),
-    (("cache_", "_cache"), ["C08", "C09", "C19"]), (("__getstate__", "__setstate__", "__reduce__"), ["C09"]),
-    (("encode_url", "__new__", "pre_encoded", "from_parts", "build"), ["C03", "C09", "C07", "C19"]),
-    (("__str__", "origin", "relative", "with_scheme", "with_user", "with_password", "with_host", "with_port", "with_fragment", "authority", "user", "password", "fragment"),
+    (("join",), ["C14", "C15", "C02"]),
+    (("_make_child", "joinpath", "__truediv__", "with_name", "with_suffix", "parent", "parts", "name", "suffix"), ["C13", "C15", "C11"]),
+    (("with_path",), ["C15", "C11", "C13"]),
+    (("query", "update_query", "extend_query", "with_query", "without_query_params", "__mod__", "_parsed_query", "get_str_query"), ["C12", "C11", "C02"]),
+    (("_encode_host", "_idna", "_host_validate", "_check_netloc"), ["C16", "C03", "C18"]),
+    (("host",), ["C16", "C09", "C18"]),
+    (("with_port", "port", "is_default_port", "_get_port"), ["C17", "C11"]),
+    (("human_repr", "human_quote"), ["C18"]),
+    (("__eq__", "__hash__", "__le__", "__lt__", "__ge__", "__gt__", "_cmp"), ["C10", "C09"]),
+    (("cache_clear", "cache_configure", "cache_info"), ["C08", "C19"]),
+    (("__getstate__", "__setstate__", "__reduce__"), ["C09"]),
+    (("build_pre_encoded",), ["C09", "C17", "C07"]),
+    (("build",), ["C17", "C16", "C19", "C01", "C03"]),
+    (("encode_url", "__new__", "pre_encoded", "from_parts"), ["C03", "C09", "C07", "C19"]),
+    (("_origin", "origin", "relative"), ["C11", "C17", "C09"]),
+    (("__str__", "with_scheme", "with_user", "with_password", "with_host", "with_fragment", "authority", "user", "password", "fragment"),
      ["C11", "C03", "C09", "C06"]),
-    (("path", "raw_"), ["C06", "C09"]),
+    (("raw_path_qs", "path_qs", "path", "raw_"), ["C09", "C06"]),
+    (("split_url", "split_netloc"), ["C07", "C03", "C09"]),
+    (("unsplit_result", "make_netloc"), ["C03", "C04", "C11", "C02"]),
 ]
 ALL_CHECKS = ["C%02d" % i for i in range(1, 21)]
 
@@ -287,13 +298,13 @@ def tests(jobs):
 
 
 def checks_for(m):
-    if m["file"] in FILE_CHECKS:
+    if m["file"] in FILE_CHECKS and m["file"] != "yarl/_parse.py":
         return FILE_CHECKS[m["file"]]
     fn = m["func"].split(".")[-1]
     for keys, cs in FUNC_CHECKS:
         if any(fn == k or (k.endswith("_") and fn.startswith(k)) or (k.startswith("_") and k in fn) or fn.startswith(k) for k in keys):
             return cs
-    return ["C09", "C03", "C11"]
+    return FILE_CHECKS.get(m["file"], ["C09", "C03", "C11"])
 
 
 def run_check(c, d):
@@ -311,6 +322,18 @@ def checks(limit, escalate):
     if os.path.exists(path):
         done = {json.loads(l)["id"] for l in open(path)}
     todo = [m for m in surv if m["id"] not in done][:limit]
+    if os.environ.get("ASTMUT_RETRY_SILENT"):
+        # second pass: mutants that stayed silent, against the checks of the (refined) mapping that were not tried yet
+        prev = {}
+        for l in open(path):
+            r = json.loads(l)
+            prev.setdefault(r["id"], {"tried": set(), "caught": None})
+            prev[r["id"]]["tried"].update(r["checks"])
+            prev[r["id"]]["caught"] = prev[r["id"]]["caught"] or r.get("caught_by")
+        todo = [m for m in surv if m["id"] in prev and not prev[m["id"]]["caught"]
+                and [c for c in checks_for(m) if c not in prev[m["id"]]["tried"]]][:limit]
+        for m in todo:
+            m["_skip"] = prev[m["id"]]["tried"]
     print("test-surviving mutants:", len(surv), "to run:", len(todo))
     d = make_copy("c")
     try:
@@ -320,7 +343,7 @@ def checks(limit, escalate):
                 t0 = time.time()
                 rec = {"id": m["id"], "file": m["file"], "func": m["func"], "line": m["line"], "op": m["op"], "old": m["old"][:80], "new": m["new"][:80], "checks": {}}
                 caught = None
-                order = checks_for(m)[: int(os.environ.get("ASTMUT_MAXCHECKS", "9"))]
+                order = [c for c in checks_for(m) if c not in m.get("_skip", ())][: int(os.environ.get("ASTMUT_MAXCHECKS", "9"))]
                 if escalate:
                     order = order + [c for c in ALL_CHECKS if c not in order and c != "C20"] + ["C20"]
                 for c in order:
